@@ -25,7 +25,9 @@ State that outlives one call / handler / class (notes/STATE_AUDIT.md, G6): strea
 handlers alive in one scenario (own connection each, some of them real client connections), interleaves the calls,
 exports the same instances on several handlers, unexports and re-exports them, lets exports fail half-way (a raising
 getAllProperties, an invalid path) before good ones, and judges every handler against the calls made on IT after every
-call.  Classes: a process-wide family used case after case AND new families per case (a base/derived pair first used
+call (that ONE instance may be exported on two handlers at once is what txdbus does today, not something the
+statement says: an implementation that moves the instance would make this per-handler bookkeeping wrong - design-dependent,
+see notes/C16.md).  Classes: a process-wide family used case after case AND new families per case (a base/derived pair first used
 in either order).  `stabilise` re-runs every finding on a freshly imported txdbus and stores the earlier cases it needs.
 """
 import xml.etree.ElementTree as ET
@@ -431,6 +433,7 @@ class World:
         self.objs = self.o.objs
         self.make = self.o.make
         self.exported = {}      # path -> ident        (bookkeeping from the calls on this handler alone)
+        self.held = set()       # idents that are or ever were exported on this handler
         self.tainted = False    # a defect was reported for this handler: its table is known to be wrong
 
     def remote_view(self, raws):
@@ -477,6 +480,7 @@ class World:
         sent = self.remote_view(self.take())
         if self.registry[ident][4] and fail is None:
             self.exported[path] = ident          # a failed export call implies nothing
+            self.held.add(ident)
         return ident, exc, sent
 
     def unexport(self, path):
@@ -1275,13 +1279,22 @@ def run_handlers_history(ctx, stream, hist, lines, expect, judge=True):
         expect.append((stream, hist, step_no, ['handler'], 'ok', k))
         lines.append(line)
         expect.append((stream, hist, step_no, ['signals'], canon_signals(w, res[1], res[2]), k))
-        # the announcement belongs to the connection the call was made on: nothing may appear on another one
+        # the announcement belongs to the connection the call was made on.  A message on ANOTHER handler's connection is
+        # judged only when that handler never held the instance of this call: the statement is silent on one instance
+        # living on two handlers (an implementation may "move" it: exporting on B unexports - and announces - on A), so
+        # a message on a connection where the instance is or was exported is recorded, not flagged (review3 F5).
+        inst = res[0]                    # the instance exported / the instance that was unexported (None: nothing was)
         stray = [(j, x.remote_view(x.take())) for j, x in enumerate(worlds) if x is not w]
         stray = [(j, m) for j, m in stray if m]
+        for j, m in stray:
+            if inst is not None and inst in worlds[j].held:
+                ctx.stat('message-on-other-connection-holding-the-instance (unspecified, not judged)')
+        stray = [(j, m) for j, m in stray if inst is None or inst not in worlds[j].held]
         if judge and stray and not any(x.tainted for x in worlds):
             j, msgs = stray[0]
             ctx.violation('announced-on-other-connection',
-                          'an export / unexport call on one handler sends a message on ANOTHER handler\'s connection',
+                          'an export / unexport call on one handler sends a message on the connection of ANOTHER handler, '
+                          'on which the instance of the call was never exported',
                           case_input(hist, step_no, ['signals'], w),
                           observed={'connection': j, 'messages': canon_signals(worlds[j], None, msgs)}, expected='no message there')
             worlds[j].tainted = True
